@@ -35,6 +35,12 @@ impl SmallKey for Id {
     }
 }
 
+impl std::fmt::Display for Id {
+    fn fmt(&self, _f: &mut std::fmt::Formatter<'_>) -> std::fmt::Result {
+        Ok(())
+    }
+}
+
 #[cfg(kani)]
 impl kani::Arbitrary for Id {
     fn any() -> Self {
@@ -108,16 +114,16 @@ impl<K: SmallKey> BTreeSet<K> {
     pub fn contains(&self, k: &K) -> bool {
         self.bits & (1u8 << k.idx()) != 0
     }
-    pub fn iter(&self) -> Bits<K> {
+    pub fn iter(&self) -> Bits<'_, K> {
         Bits { bits: self.bits, k: PhantomData }
     }
-    pub fn intersection<'a>(&'a self, o: &'a Self) -> Bits<K> {
+    pub fn intersection<'a>(&'a self, o: &'a Self) -> Bits<'a, K> {
         Bits { bits: self.bits & o.bits, k: PhantomData }
     }
-    pub fn difference<'a>(&'a self, o: &'a Self) -> Bits<K> {
+    pub fn difference<'a>(&'a self, o: &'a Self) -> Bits<'a, K> {
         Bits { bits: self.bits & !o.bits, k: PhantomData }
     }
-    pub fn union<'a>(&'a self, o: &'a Self) -> Bits<K> {
+    pub fn union<'a>(&'a self, o: &'a Self) -> Bits<'a, K> {
         Bits { bits: self.bits | o.bits, k: PhantomData }
     }
     pub fn is_subset(&self, o: &Self) -> bool {
@@ -148,18 +154,18 @@ impl<K: SmallKey> BTreeSet<K> {
 }
 
 /// Iterator over the members of a bit mask, ascending; yields `&'static K` from the key table.
-pub struct Bits<K> {
+pub struct Bits<'a, K> {
     bits: u8,
-    k: PhantomData<K>,
+    k: PhantomData<&'a K>,
 }
-impl<K> Clone for Bits<K> {
+impl<'a, K> Clone for Bits<'a, K> {
     fn clone(&self) -> Self {
         Self { bits: self.bits, k: PhantomData }
     }
 }
-impl<K: SmallKey> Iterator for Bits<K> {
-    type Item = &'static K;
-    fn next(&mut self) -> Option<&'static K> {
+impl<'a, K: SmallKey> Iterator for Bits<'a, K> {
+    type Item = &'a K;
+    fn next(&mut self) -> Option<&'a K> {
         // concrete slot order, symbolic membership: no symbolic table index
         let mut i = 0u8;
         while i < UNIVERSE {
@@ -172,8 +178,8 @@ impl<K: SmallKey> Iterator for Bits<K> {
         None
     }
 }
-impl<K: SmallKey> DoubleEndedIterator for Bits<K> {
-    fn next_back(&mut self) -> Option<&'static K> {
+impl<'a, K: SmallKey> DoubleEndedIterator for Bits<'a, K> {
+    fn next_back(&mut self) -> Option<&'a K> {
         let mut i = UNIVERSE;
         while i > 0 {
             i -= 1;
@@ -187,8 +193,8 @@ impl<K: SmallKey> DoubleEndedIterator for Bits<K> {
 }
 
 /// By-value iterator.
-pub struct IntoBits<K> {
-    inner: Bits<K>,
+pub struct IntoBits<K: 'static> {
+    inner: Bits<'static, K>,
 }
 impl<K: SmallKey> Iterator for IntoBits<K> {
     type Item = K;
@@ -206,13 +212,13 @@ impl<K: SmallKey> IntoIterator for BTreeSet<K> {
     type Item = K;
     type IntoIter = IntoBits<K>;
     fn into_iter(self) -> IntoBits<K> {
-        IntoBits { inner: self.iter() }
+        IntoBits { inner: Bits { bits: self.bits, k: PhantomData } }
     }
 }
 impl<'a, K: SmallKey> IntoIterator for &'a BTreeSet<K> {
-    type Item = &'static K;
-    type IntoIter = Bits<K>;
-    fn into_iter(self) -> Bits<K> {
+    type Item = &'a K;
+    type IntoIter = Bits<'a, K>;
+    fn into_iter(self) -> Bits<'a, K> {
         self.iter()
     }
 }
@@ -310,7 +316,7 @@ impl<K: SmallKey, V> BTreeMap<K, V> {
     pub fn contains_key(&self, k: &K) -> bool {
         self.slot(k.idx()).is_some()
     }
-    pub fn keys(&self) -> Bits<K> {
+    pub fn keys(&self) -> Bits<'_, K> {
         Bits { bits: self.bits(), k: PhantomData }
     }
     pub fn iter(&self) -> MapIter<'_, K, V> {
@@ -322,14 +328,37 @@ impl<K: SmallKey, V> BTreeMap<K, V> {
     pub fn entry(&mut self, k: K) -> Entry<'_, K, V> {
         Entry { m: self, k }
     }
-    pub fn first_key_value(&self) -> Option<(&'static K, &V)> {
+    pub fn first_key_value(&self) -> Option<(&K, &V)> {
         self.iter().next()
     }
-    pub fn last_key_value(&self) -> Option<(&'static K, &V)> {
+    pub fn last_key_value(&self) -> Option<(&K, &V)> {
         self.iter().next_back()
     }
+    pub fn retain<F: FnMut(&K, &mut V) -> bool>(&mut self, mut f: F) {
+        let mut i = 0u8;
+        while i < UNIVERSE {
+            let keep = match self.slot_mut(i) {
+                Some(v) => f(&K::all()[i as usize], v),
+                None => true,
+            };
+            if !keep {
+                *self.slot_mut(i) = None;
+            }
+            i += 1;
+        }
+    }
+    pub fn pop_first(&mut self) -> Option<(K, V)> {
+        let mut i = 0u8;
+        while i < UNIVERSE {
+            if let Some(v) = self.slot_mut(i).take() {
+                return Some((K::all()[i as usize], v));
+            }
+            i += 1;
+        }
+        None
+    }
     pub fn into_keys(self) -> IntoBits<K> {
-        IntoBits { inner: self.keys() }
+        IntoBits { inner: Bits { bits: self.bits(), k: PhantomData } }
     }
     pub fn into_values(self) -> std::vec::IntoIter<V> {
         let mut out = Vec::new();
@@ -378,7 +407,7 @@ pub struct MapIter<'a, K, V> {
     j: u8,
 }
 impl<'a, K: SmallKey, V> Iterator for MapIter<'a, K, V> {
-    type Item = (&'static K, &'a V);
+    type Item = (&'a K, &'a V);
     fn next(&mut self) -> Option<Self::Item> {
         while self.i < self.j {
             let i = self.i;
@@ -434,7 +463,7 @@ impl<K: SmallKey, V> IntoIterator for BTreeMap<K, V> {
     }
 }
 impl<'a, K: SmallKey, V> IntoIterator for &'a BTreeMap<K, V> {
-    type Item = (&'static K, &'a V);
+    type Item = (&'a K, &'a V);
     type IntoIter = MapIter<'a, K, V>;
     fn into_iter(self) -> MapIter<'a, K, V> {
         self.iter()
